@@ -67,6 +67,50 @@ end Grog.Walker
 
 namespace Grog.Walker
 
+/-! ### projections of `onComplete` -/
+
+@[simp] theorem completeOk_phase (c : Cfg) (s : State) (n : Node) :
+    (completeOk c s n).phase = set s.phase n .ok := by
+  unfold completeOk; split <;> rfl
+@[simp] theorem completeOk_cancel (c : Cfg) (s : State) (n : Node) :
+    (completeOk c s n).cancel = s.cancel := by
+  unfold completeOk; split <;> rfl
+@[simp] theorem completeOk_pend (c : Cfg) (s : State) (n : Node) :
+    (completeOk c s n).pend = s.pend := by
+  unfold completeOk; split <;> rfl
+@[simp] theorem completeOk_ff (c : Cfg) (s : State) (n : Node) :
+    (completeOk c s n).ff = s.ff := by
+  unfold completeOk; split <;> rfl
+@[simp] theorem completeOk_ctx (c : Cfg) (s : State) (n : Node) :
+    (completeOk c s n).ctx = s.ctx := by
+  unfold completeOk; split <;> rfl
+@[simp] theorem completeOk_retErr (c : Cfg) (s : State) (n : Node) :
+    (completeOk c s n).retErr = s.retErr := by
+  unfold completeOk; split <;> rfl
+@[simp] theorem completeOk_snap (c : Cfg) (s : State) (n : Node) :
+    (completeOk c s n).snap = s.snap := by
+  unfold completeOk; split <;> rfl
+@[simp] theorem completeFail_phase (c : Cfg) (s : State) (n : Node) :
+    (completeFail c s n).phase = set s.phase n .failed := by
+  unfold completeFail; split
+  · rfl
+  · split <;> rfl
+@[simp] theorem completeFail_retErr (c : Cfg) (s : State) (n : Node) :
+    (completeFail c s n).retErr = s.retErr := by
+  unfold completeFail; split
+  · rfl
+  · split <;> rfl
+@[simp] theorem completeFail_snap (c : Cfg) (s : State) (n : Node) :
+    (completeFail c s n).snap = s.snap := by
+  unfold completeFail; split
+  · rfl
+  · split <;> rfl
+@[simp] theorem completeFail_ready (c : Cfg) (s : State) (n : Node) :
+    (completeFail c s n).ready = s.ready := by
+  unfold completeFail; split
+  · rfl
+  · split <;> rfl
+
 /-! ### the invariant bundle -/
 
 structure Inv (c : Cfg) (s : State) : Prop where
